@@ -1155,9 +1155,13 @@ func (ns *NamespaceStore) unsealNamespace(ctx context.Context, namespaceToUnseal
 		ns.namespacesByUUID[namespaceToUnseal.UUID] = namespaceToUnseal
 		ns.namespacesByAccessor[namespaceToUnseal.ID] = namespaceToUnseal
 
-		nsStorage := ns.core.NamespaceView(namespaceToUnseal)
-		return logical.WithTransaction(ctx, nsStorage, func(s logical.Storage) error {
-			return ns.loadNamespacesRecursive(ctx, s, s, func(newNs *namespace.Namespace) error {
+		// loadNamespacesRecursive scopes the storage it is handed as barrier
+		// down to each namespace it discovers, so that has to be the barrier
+		// itself and not the view of the unsealed namespace: the storage of a
+		// namespace is not nested inside the storage of its parent.
+		nsBarrier := ns.core.sealManager.NamespaceBarrierByLongestPrefix(namespaceToUnseal.Path)
+		return logical.WithTransaction(ctx, nsBarrier, func(s logical.Storage) error {
+			return ns.loadNamespacesRecursive(ctx, s, NamespaceScopedView(s, namespaceToUnseal), func(newNs *namespace.Namespace) error {
 				if _, ok := ns.namespacesByUUID[newNs.UUID]; ok {
 					return fmt.Errorf("namespace with UUID %q is not unique in storage", newNs.UUID)
 				}
